@@ -1,6 +1,9 @@
 #[cfg(test)]
 mod tests;
 
+#[cfg(librqbit_utp_verif)]
+pub mod verif_driver;
+
 use std::{
     future::Future,
     io::IoSlice,
@@ -1721,6 +1724,8 @@ impl<T: Transport, E: UtpEnvironment> UtpStreamStarter<T, E> {
             remote,
             conn_id_send,
             timers: Timers {
+                #[cfg(librqbit_utp_verif)]
+                verif_last_arm_in: None,
                 retransmit: Timer::default(),
                 sleep: Box::pin(tokio::time::sleep(Duration::from_secs(0))),
                 ack_delay_timer: Timer::default(),
@@ -1890,6 +1895,8 @@ impl<const NAME: u8> Timer<NAME> {
 }
 
 struct Timers {
+    #[cfg(librqbit_utp_verif)]
+    verif_last_arm_in: Option<Duration>,
     sleep: Pin<Box<Sleep>>,
     remote_inactivity_timer: Timer<TIMER_INACTIVITY>,
     recovery_pipe_expiry: Timer<TIMER_RECOVERY_PIPE>,
@@ -1903,6 +1910,10 @@ impl Timers {
     ///
     /// Returns true if the waker was registered (i.e. it's ok to return Poll::Pending).
     fn arm_in(&mut self, cx: &mut std::task::Context<'_>, duration: Duration) -> bool {
+        #[cfg(librqbit_utp_verif)]
+        {
+            self.verif_last_arm_in = Some(duration);
+        }
         let deadline = tokio::time::Instant::now() + duration;
         let mut sl = self.sleep.as_mut();
         sl.as_mut().reset(deadline);
